@@ -2596,7 +2596,9 @@ impl Entry<EntryReduced, EntryCommitted> {
                                 .unwrap_or_default(),
                         })
                     }
-                    ATTR_HOME_DIRECTORY => Some(LdapPartialAttribute {
+                    // Derived from the uuid: only disclose it when the uuid itself survived
+                    // access-control reduction.
+                    ATTR_HOME_DIRECTORY => attr_map.get(ATTR_UUID).map(|_| LdapPartialAttribute {
                         atype: ATTR_HOME_DIRECTORY.to_string(),
                         vals: vec![format!("/home/{}", self.get_uuid()).into_bytes()],
                     }),
